@@ -565,6 +565,29 @@ pub fn gen_project(rng: &mut Rng, knobs: &ProjectKnobs) -> Project {
             marker_of: None,
         });
     }
+    if !input_is_file && rng.chance(1, 8) {
+        // two sources whose paths differ only by letter case (the file systems used here
+        // are case sensitive): both are sources in their own right
+        let first = sources[0].path.clone();
+        let name = file_name(&first).to_owned();
+        let mut chars = name.chars();
+        if let Some(c) = chars.next() {
+            let twin_name: String = c.to_uppercase().chain(chars).collect();
+            let twin = join(parent(&first), &twin_name);
+            if twin != first && !sources.iter().any(|s| s.path == twin) {
+                sources.push(SourceFile {
+                    path: twin,
+                    body_index: rng.below(corpus::BODIES.len()),
+                    version: 0,
+                    requires: Vec::new(),
+                    use_alias: false,
+                    bare: false,
+                    via_source: false,
+                    marker_of: None,
+                });
+            }
+        }
+    }
     let bundle = if knobs.allow_bundle && rng.chance(2, 5) {
         // in luau mode a module-folder file (init.lua) resolves relative requires from its
         // parent's parent: such files simply get no requires (see `is_module_folder_file`)
